@@ -170,6 +170,8 @@ type unit struct {
 	TypeName string `json:"type_name,omitempty"`
 	InputHex string `json:"input_hex,omitempty"`
 	Choices  []int  `json:"choices,omitempty"`
+	OvIdx    int    `json:"ov_idx,omitempty"` // replay-rt: choice point whose byte string has length OvLen (0 = none)
+	OvLen    int    `json:"ov_len,omitempty"`
 }
 
 type executor struct {
@@ -190,7 +192,8 @@ type executor struct {
 	lastAlloc  uint64
 	ms         runtime.MemStats
 
-	curSize       int // size of the input / encoding of the case being executed (the smallest failing one is reported)
+	fitNote       map[string]interface{} // replay data of a payload-fitted value (see fit)
+	curSize       int                    // size of the input / encoding of the case being executed (the smallest failing one is reported)
 	lastPairRoot  *root
 	lastPairEntry string
 	lastPairKey   string
@@ -358,6 +361,9 @@ func (x *executor) distinct(b []byte) {
 func (x *executor) roundTrip(r *root, p reflect.Value, devs []string, choices []int, allEntries bool, tag string) (enc []byte, ok bool) {
 	replay := func(extra map[string]interface{}) map[string]interface{} {
 		m := map[string]interface{}{"phase": "round-trip", "type": r.Name, "deviations_from_default": devs, "value_source": tag, "choices": trimChoices(choices)}
+		for k, v := range x.fitNote {
+			m[k] = v
+		}
 		for k, v := range extra {
 			m[k] = v
 		}
@@ -391,6 +397,11 @@ func (x *executor) roundTrip(r *root, p reflect.Value, devs []string, choices []
 				x.violation("encode-variant-fails:"+ep, fmt.Sprintf("%s: plain encoding works but the encoding for %s fails: %v %v", r.Name, ep, c.val, err), replay(nil))
 				continue
 			}
+		}
+		if len(e) > readerLimit-64 && ep != epBytes && ep != epBytesT {
+			// larger than the limit these entry points are called with: refusing it is their contract
+			x.res.Counters["roundtrip_skipped_over_entry_limit"]++
+			continue
 		}
 		fn := makeEntry(r.T, ep)
 		var q reflect.Value
@@ -593,7 +604,7 @@ func (x *executor) corpus(r *root, ep string, withDev bool, maxDev int, depthLim
 	for _, p := range base {
 		seen[string(mustEnc(ep, p))] = true
 	}
-	explore(x.reg, r.T, maxDev, depthLim, 0, 1, func(p reflect.Value, c *chooser, ndev int) bool {
+	explore(x.reg, r.T, maxDev, depthLim, 0, 1, false, func(p reflect.Value, c *chooser, ndev int) bool {
 		if ndev > 0 {
 			emit(p)
 		}
@@ -607,7 +618,7 @@ func (x *executor) run(u *unit) *unitResult {
 	case "rt":
 		r := &x.roots[u.Root]
 		first := true
-		explore(x.reg, r.T, u.MaxDev, u.DepthLim, u.Shard, u.NShards, func(p reflect.Value, c *chooser, ndev int) bool {
+		explore(x.reg, r.T, u.MaxDev, u.DepthLim, u.Shard, u.NShards, true, func(p reflect.Value, c *chooser, ndev int) bool {
 			if first {
 				first = false
 			}
@@ -640,6 +651,8 @@ func (x *executor) run(u *unit) *unitResult {
 				x.res.Counters["real_values"]++
 			}
 		}
+	case "fit":
+		x.fit(&x.roots[u.Root])
 	case "maporder":
 		x.mapOrder()
 	case "hostile":
@@ -696,7 +709,15 @@ func (x *executor) run(u *unit) *unitResult {
 	case "replay-rt":
 		for i := range x.roots {
 			if x.roots[i].Name == u.TypeName {
-				p, c, _ := buildValue(x.reg, x.roots[i].T, u.Choices)
+				var ov map[int]int
+				if u.OvLen > 0 {
+					ov = map[int]int{u.OvIdx: u.OvLen}
+				}
+				p, c, _ := buildValueOv(x.reg, x.roots[i].T, u.Choices, ov)
+				x.fitNote = nil
+				if ov != nil {
+					x.fitNote = map[string]interface{}{"ov_idx": u.OvIdx, "ov_len": u.OvLen}
+				}
 				x.roundTrip(&x.roots[i], p, c.deviations(), c.choices, true, "replay")
 			}
 		}
@@ -706,4 +727,63 @@ func (x *executor) run(u *unit) *unitResult {
 	x.flushBatch()
 	x.res.Counters["distinct_encodings"] = len(x.seen)
 	return x.res
+}
+
+// payload lengths at which the header of the enclosing list changes its shape
+var fitTargets = []int{55, 56, 255, 256, 65535, 65536, 65537}
+
+// topListPayload returns the payload length of the top-level list of encoding e (-1: the value is not a list).
+func topListPayload(reg *registry, e []byte) int {
+	top, ok := parseItems(reg, e)
+	if !ok {
+		return -1
+	}
+	for _, n := range top {
+		if n.kind == 2 {
+			return n.size
+		}
+	}
+	return -1
+}
+
+// fit: for (up to 6) byte-string / string fields of the populated default of r and every target length L, the field is
+// sized so that the PAYLOAD of the value's top-level list is exactly L bytes (the boundaries of the list header:
+// short/long form, 1/2/3 length bytes); the value then goes through the round-trip oracle on every entry point.
+func (x *executor) fit(r *root) {
+	_, c0, _ := buildValue(x.reg, r.T, nil)
+	var slots []int
+	for i, pt := range c0.pts {
+		if pt.bytes && len(slots) < 6 {
+			slots = append(slots, i)
+		}
+	}
+	for _, idx := range slots {
+		for _, L := range fitTargets {
+			n, hit := L, false
+			for iter := 0; iter < 8 && n >= 0; iter++ {
+				p, c, _ := buildValueOv(x.reg, r.T, nil, map[int]int{idx: n})
+				e := mustEnc(epBytes, p)
+				if e == nil {
+					break
+				}
+				pay := topListPayload(x.reg, e)
+				if pay < 0 {
+					break
+				}
+				if pay == L {
+					hit = true
+					x.fitNote = map[string]interface{}{"ov_idx": idx, "ov_len": n}
+					x.roundTrip(r, p, []string{fmt.Sprintf("%s sized to %d bytes: top-level list payload = %d", c.pts[idx].label, n, L)}, nil, true, "payload-fitted")
+					x.fitNote = nil
+					break
+				}
+				n += L - pay
+			}
+			if hit {
+				x.res.Counters["payload_fitted_values"]++
+			} else {
+				x.res.Counters["payload_fit_unreachable"]++
+			}
+		}
+	}
 }
